@@ -244,6 +244,8 @@ func SameObject(a, b interface{}) bool {
 }
 func Guard(v interface{}, mu interface{}, what string)    {}
 func GuardObj(v interface{}, mu interface{}, what string) {}
+func Freeze(x interface{}, what string)                   {}
+func LockFree(mu interface{}) bool                        { return true }
 func SetFlag(key string, v int)                           { flags[key] = v }
 func GetFlag(key string) int                              { return flags[key] }
 func Fire(i int) bool                                     { return false }
